@@ -4,8 +4,10 @@ use vcommon::sched::run_one;
 
 fn main() {
     if std::env::var("PROBE_LOG").is_ok() { tracing_subscriber::fmt().with_max_level(tracing::Level::TRACE).without_time().with_target(false).init(); }
-    let script = sequential(&[vec![cmd("c", "@act{ops:{@sendh{host:\"warp://h:9001\",node:\"/r\",lane:x,value:41,ow:false},@sendh{host:\"warp://h:9001\",node:\"/r\",lane:y,value:42,ow:false},@sendh{host:\"warp://h:9001\",node:\"/r\",lane:x,value:43,ow:false}}}")]]);
+    let script = sequential(&[vec![link("v"), cmd("v", "1"), Step::Wait(6), act(&[]), Step::Wait(6), cmd("v", "2")]]);
     let mut cfg = Cfg::basic(script, 1);
+    cfg.store = StoreMode::Recording; cfg.restart = true;
+    if let Ok(k) = std::env::var("CRASH") { cfg.crash_at = Some(k.parse().unwrap()); }
     let args: Vec<String> = std::env::args().collect();
     if args.len() > 1 { cfg.cap = args[1].parse().unwrap(); }
     if args.len() > 2 { cfg.budget = args[2].parse().unwrap(); }
